@@ -73,6 +73,42 @@ type typeDef struct {
 	ifaces  []string
 	members []string
 	values  []string
+	// deprecated members (DeprecationReason set): introspection lists them only when asked with
+	// includeDeprecated: true; operations select them like any other field
+	depFields map[string]bool
+	depValues map[string]bool
+}
+
+func (d *typeDef) deprecateField(f string) {
+	if d.depFields == nil {
+		d.depFields = map[string]bool{}
+	}
+	d.depFields[f] = true
+}
+
+func (d *typeDef) deprecateValue(v string) {
+	if d.depValues == nil {
+		d.depValues = map[string]bool{}
+	}
+	d.depValues[v] = true
+}
+
+// deprecations as sent to the model: ((fields (Type field) ...) (values (Enum value) ...))
+func (s *schemaDef) deprecationsSexp() sexp.Node {
+	var fs, vs []sexp.Node
+	for _, d := range s.types {
+		for _, f := range d.fields {
+			if d.depFields[f.name] {
+				fs = append(fs, sexp.L(sexp.Str(d.name), sexp.Str(f.name)))
+			}
+		}
+		for _, v := range d.values {
+			if d.depValues[v] {
+				vs = append(vs, sexp.L(sexp.Str(d.name), sexp.Str(v)))
+			}
+		}
+	}
+	return sexp.L(sexp.T("fields", fs...), sexp.T("values", vs...))
 }
 
 func (d *typeDef) field(name string) *fieldDef {
@@ -391,6 +427,19 @@ func genSchema(r *rng.R) *schemaDef {
 	for _, d := range s.types {
 		s.byName[d.name] = d
 	}
+	// deprecated fields and enum values (about 1 in 5)
+	for _, d := range s.types {
+		for _, f := range d.fields {
+			if r.Chance(1, 5) {
+				d.deprecateField(f.name)
+			}
+		}
+		for _, v := range d.values {
+			if r.Chance(1, 4) {
+				d.deprecateValue(v)
+			}
+		}
+	}
 	return s
 }
 
@@ -487,6 +536,9 @@ func (s *schemaDef) build() (*graphql.Schema, error) {
 			e := &graphql.EnumType{Name: d.name, Values: map[string]*graphql.EnumValueDefinition{}}
 			for _, v := range d.values {
 				e.Values[v] = &graphql.EnumValueDefinition{Value: v}
+				if d.depValues[v] {
+					e.Values[v].DeprecationReason = "use something else"
+				}
 			}
 			types[d.name] = e
 		}
@@ -506,6 +558,9 @@ func (s *schemaDef) build() (*graphql.Schema, error) {
 		for _, f := range d.fields {
 			f := f
 			fd := &graphql.FieldDefinition{Type: conv(f.typ)}
+			if d.depFields[f.name] {
+				fd.DeprecationReason = "no longer supported"
+			}
 			if resolve {
 				fd.Resolve = func(ctx graphql.FieldContext) (interface{}, error) {
 					o := ctx.Object.(*wobj)
